@@ -576,18 +576,11 @@ func firstLine(err error) string {
 	return strings.ReplaceAll(s, "\n", " | ")
 }
 
-// errClass maps a CheckDump message to a stable sub-class.
+// errClass is the stable code of a CheckDump failure.
 func errClass(err error) string {
-	s := err.Error()
-	for _, p := range []struct{ needle, class string }{
-		{"compressed_bytes", "compressed-bytes"}, {"uncompressed_bytes", "uncompressed-bytes"}, {"sha256", "sha256"},
-		{"manifest count", "record-count"}, {"metrics", "metrics"}, {"schema entry", "schema-kinds"},
-		{"does not list", "unlisted-file"}, {"fragment path", "fragment-path"}, {"manifest counts", "graph-counts"},
-		{"record", "records"}, {"fragments hold", "records"}, {"kinds", "records"}, {"properties", "records"},
-	} {
-		if strings.Contains(s, p.needle) {
-			return p.class
-		}
+	var de *rtk.DumpError
+	if errors.As(err, &de) {
+		return de.Code
 	}
 	return "other"
 }
